@@ -441,6 +441,22 @@ func c01Mempool(w *World, h *History, r *rand.Rand, rep *TwinReport) func(rp *Re
 	}
 }
 
+// c07DirectedProbes: governance transactions that anybody may submit for the proposals of the directed histories
+func c07DirectedProbes(w *World) [][]byte {
+	out := [][]byte{}
+	n := 0
+	memo := func() string { n++; return fmt.Sprintf("c07dir%d", n) }
+	GAS = 1000000
+	for _, id := range []string{"cfgfee", "cfgons", "gen1", "exp1", "lab_vote"} {
+		for _, v := range w.Vals {
+			out = append(out, mkTx(action.PROPOSAL_FINALIZE, govact.FinalizeProposal{ProposalID: propID(id), ValidatorAddress: v.Val.Addr}, GAS, memo(), v.Val))
+		}
+		out = append(out, mkTx(action.PROPOSAL_FINALIZE, govact.FinalizeProposal{ProposalID: propID(id), ValidatorAddress: w.Users[3].Addr}, GAS, memo(), w.Users[3]))
+		out = append(out, txExpireVotes(w.Users[3], id, memo()))
+	}
+	return out
+}
+
 // c07Probes: transactions for CheckTx only
 func c07Probes(w *World, r *rand.Rand) [][]byte {
 	out := [][]byte{}
@@ -528,9 +544,18 @@ func buildVariants(mode string, w *World, h *History, base *Transcript, r *rand.
 				}
 			}}
 		}
+		// directed: finalize / expire / cancel transactions for every proposal id of the directed histories,
+		// ALL of them at every call boundary (a finalize that is only checked must not pre-empt the options)
+		directed := c07DirectedProbes(w)
+		dv := &Variant{Name: "checktx-finalize-everywhere", Checks: func(rp *Replica, b, pos int) {
+			for _, tx := range directed {
+				rp.CheckTx(tx)
+				rep.ChecksRun++
+			}
+		}}
 		mixed := append(append([][]byte{}, all...), probes...)
 		return []*Variant{mk("checktx-everywhere", 100, all), mk("checktx-sparse", 25, all),
-			mk("checktx-never-delivered-everywhere", 100, probes), mk("checktx-mixed-sparse", 35, mixed)}
+			mk("checktx-never-delivered-everywhere", 100, probes), mk("checktx-mixed-sparse", 35, mixed), dv}
 	case "c08":
 		vs := []*Variant{}
 		for k := 0; k < 3; k++ {
